@@ -156,6 +156,12 @@ class CallMixin:
                     out.extend(self.apply_contract(a, self.contracts.get('$custom:' + syn), [recv] + pos, kw))
                 if rest is None:
                     return out
+        if meth == '__call__' and self.contracts.get('$call:$ExcClass') is not None:
+            a, rest = self.split(rest, z3.And(V.is_obj(recv), clsof(V.ref(recv)) == self.cid('$ExcClass')))
+            if a is not None:
+                out.extend(self.apply_contract(a, self.contracts.get('$call:$ExcClass'), [recv] + pos, kw))
+            if rest is None:
+                return out
         b = self.builtin_method(meth)
         if b is not None:
             out.extend(b(rest, recv, pos, kw))
@@ -364,10 +370,16 @@ class CallMixin:
             st.assume(p)        # later obligations on this path may rely on it (it is proved separately)
         out = []
         outcomes = [('ret', None)] + [('exc', e) for e in con.raises]
+        vals = {}
+        for k_, v_ in args.items():
+            if isinstance(v_, z3.ExprRef) and v_.sort() == V:
+                vals[k_] = self.val(st, v_)
         for kind, e in outcomes:
             s = st.fork()
             # havoc what the callee may modify
             mods = con.modifies(cx) if callable(con.modifies) else con.modifies
+            if mods:
+                self.invalidate(s, con.preserves)
             for f in mods:
                 old = s.H(f)
                 new = self.fresh('H!' + f, old.sort())
@@ -395,6 +407,9 @@ class CallMixin:
                 pass
             if not self.feasible(s):
                 continue
+            s.ghost['$calls'] = s.ghost.get('$calls', []) + [
+                {'qual': con.qual, 'args': args, 'vals': vals, 'outcome': kind,
+                 'result': r if kind == 'ret' else None, 'exc': e, 'st': cx.st0}]
             out.append((s, 'ok', r) if kind == 'ret' else (s, 'exc', o.exc))
         return out
 
